@@ -116,16 +116,28 @@ Proof.
 Qed.
 
 (* ---- parse_ws in state form ------------------------------------------------ *)
-Lemma ws_gap : forall src pre l rest i n a g e inc,
+Lemma ws_gap_solid : forall src pre l rest i n a g e inc,
   src = pre ++ l ++ rest -> i = byte_len pre ->
-  layout_text l -> item_start rest -> (inc = false -> count_nl l = 0) ->
+  layout_text l -> starts_solid rest -> (inc = false -> line_layout l) ->
   ws true src (byte_len src) (fuel_for src) (mkSt n a g e) i inc
   = Done (mkSt (n + count_nl l) a g e, Ok (i + byte_len l)).
 Proof.
   intros src pre l rest i n a g e inc Hs Hi Hl Hr Hinc. subst i.
-  unfold ws. cbn [nn].
-  pose proof (ws_skips_layout_fixed pre l rest n inc Hl (item_start_solid _ Hr) Hinc) as H.
-  cbn zeta in H. rewrite <- Hs in H. rewrite H. reflexivity.
+  unfold ws. cbn [nn]. destruct inc.
+  - pose proof (ws_skips_layout_fixed pre l rest n true Hl Hr ltac:(intros HH; discriminate HH)) as H.
+    cbn zeta in H. rewrite <- Hs in H. rewrite H. reflexivity.
+  - pose proof (ws_skips_line_layout pre l rest n (Hinc eq_refl) Hr) as H.
+    cbn zeta in H. rewrite <- Hs in H. rewrite H. reflexivity.
+Qed.
+
+Lemma ws_gap : forall src pre l rest i n a g e inc,
+  src = pre ++ l ++ rest -> i = byte_len pre ->
+  layout_text l -> item_start rest -> (inc = false -> line_layout l) ->
+  ws true src (byte_len src) (fuel_for src) (mkSt n a g e) i inc
+  = Done (mkSt (n + count_nl l) a g e, Ok (i + byte_len l)).
+Proof.
+  intros src pre l rest i n a g e inc Hs Hi Hl Hr Hinc.
+  apply (ws_gap_solid src pre l rest); try assumption. apply item_start_solid. exact Hr.
 Qed.
 
 (* no layout at all: the cursor is already at an item *)
@@ -137,7 +149,7 @@ Proof.
   rewrite (ws_gap src pre [] rest i n a g e inc); try assumption.
   - change (count_nl []) with 0. cbn [byte_len]. rewrite !Nat.add_0_r. reflexivity.
   - constructor.
-  - reflexivity.
+  - intros _. constructor.
 Qed.
 
 (* ---- lookahead_is ---------------------------------------------------------- *)
@@ -160,6 +172,22 @@ Proof. intros src pre c r i Hs Hi. subst. apply lt_len_app. Qed.
 
 Lemma not_lt_len_end : forall src i, i = byte_len src -> (i <? byte_len src) = false.
 Proof. intros src i Hi. subst. apply Nat.ltb_irrefl. Qed.
+
+(* the dialect-dependent lookaheads of parse_declarations' cascade, when the keyword is not there *)
+Lemma look_actiontype_skip : forall k src pre r (st : pst) i, src = pre ++ r -> i = byte_len pre ->
+  prefix_of kw_actiontype r = false ->
+  (if is_original k then look src st kw_actiontype i else ret st None) = Done (st, Ok None).
+Proof.
+  intros k src pre r st i Hs Hi Hp. destruct k; cbn [is_original]; [|reflexivity ..].
+  rewrite (look_at _ _ _ _ _ _ Hs Hi), Hp. reflexivity.
+Qed.
+Lemma look_implicit_skip : forall k src pre r (st : pst) i, src = pre ++ r -> i = byte_len pre ->
+  prefix_of kw_implicit_tokens r = false ->
+  (if is_eco k then look src st kw_implicit_tokens i else ret st None) = Done (st, Ok None).
+Proof.
+  intros k src pre r st i Hs Hi Hp. destruct k; cbn [is_eco]; try reflexivity.
+  rewrite (look_at _ _ _ _ _ _ Hs Hi), Hp. reflexivity.
+Qed.
 
 (* ---- lexical items in state form ------------------------------------------ *)
 
